@@ -148,6 +148,89 @@ class Check(AddCheck):
             for d in docs:
                 yield {'ro': ro, 'msg': gens.sprinkle(rng, to_text(d)), 'meta': {'cls': d[3].tag + (':' + d[3].get('operation', '') if d[3].get('operation') else ''), 'n': len(sids)}}
 
+    def run(self, tier, rng, log):
+        res = super().run(tier, rng, log)
+        # what is carried arrives intact wherever the message was read from: the same message stored as a file in the
+        # encoding its XML declaration names (ISO-8859-1, windows-1252, UTF-16, UTF-8 with BOM), merged, against the merge
+        # of the message parsed from the str
+        import os
+        import tempfile
+        import shutil
+        import warnings
+        from mosromgr.mostypes import RunningOrder, MosFile
+        ro_text = to_text(gens.make_ro(['A', 'B'], layout='plain'))
+        accented = ['Z\u00fcrich d\u00e9p\u00eache', 'na\u00efve \u00c3\u00a9 \u00bf?', 'plain ascii', '\u00a3 5 \u00b1 1']
+        tmp = tempfile.mkdtemp(prefix='mosverif-c04-')
+        n = 0
+        try:
+            for k, slug in enumerate(accented):
+                st = story('N%d' % k, body=[item('n1', slug=slug), p(slug)], slug=slug)
+                st.set('note', slug)
+                docs = [story_append(40, [st]), story_send(41, 'A', body=[p(slug), E('storyItem', E('itemID', text='q'), E('itemSlug', text=slug))], pre=[E('storySlug', text=slug)]),
+                        metadata_replace(42, [E('roSlug', text=slug)]), ro_replace(43, [st], slug=slug)]
+                for d in docs:
+                    text = to_text(d)
+                    want = impl.run_add(ro_text, text)
+                    for enc in ('iso-8859-1', 'windows-1252', 'utf-16', 'utf-8-sig'):
+                        path = os.path.join(tmp, 'm.mos.xml')
+                        decl = '' if enc == 'utf-8-sig' else '<?xml version="1.0" encoding="%s"?>' % enc
+                        try:
+                            data = (decl + text).encode(enc)
+                        except UnicodeEncodeError:
+                            continue
+                        with open(path, 'wb') as f:
+                            f.write(data)
+                        n += 1
+                        try:
+                            with warnings.catch_warnings():
+                                warnings.simplefilter('ignore')
+                                ro = RunningOrder.from_string(ro_text)
+                                ro += MosFile.from_file(path)
+                            got = X.elem_to_tree(ro.xml)
+                        except Exception as e:
+                            got = 'raises ' + impl.ename(e)
+                        if got != want.get('tree'):
+                            res['violations'].append({'what': '%s read from a file stored in %s: what arrives in the running order is not what the same message read from a str brings (%s)'
+                                                              % (d[3].tag, enc, got if isinstance(got, str) else 'content differs'),
+                                                      'case': {'kind': 'file-source', 'ro': ro_text, 'msg': text, 'encoding': enc},
+                                                      'impl': str(got)[:300], 'expected': 'the tree of the merge of the parsed str'})
+        finally:
+            shutil.rmtree(tmp, ignore_errors=True)
+        res['evaluations'] += n
+        res['extra']['file_source_merges'] = n
+        return res
+
+    def replay(self, rep):
+        case = rep.get('case') or {}
+        if case.get('kind') != 'file-source':
+            return super().replay(rep)
+        import os
+        import tempfile
+        import shutil
+        from mosromgr.mostypes import RunningOrder, MosFile
+        enc = case['encoding']
+        decl = '' if enc == 'utf-8-sig' else '<?xml version="1.0" encoding="%s"?>' % enc
+        tmp = tempfile.mkdtemp(prefix='mosverif-c04-')
+        try:
+            path = os.path.join(tmp, 'm.mos.xml')
+            with open(path, 'wb') as f:
+                f.write((decl + case['msg']).encode(enc))
+            want = impl.run_add(case['ro'], case['msg'])
+            try:
+                ro = RunningOrder.from_string(case['ro'])
+                ro += MosFile.from_file(path)
+                got = X.elem_to_tree(ro.xml)
+            except Exception as e:
+                got = 'raises ' + impl.ename(e)
+        finally:
+            shutil.rmtree(tmp, ignore_errors=True)
+        return {'violation': got != want.get('tree'), 'encoding': enc}
+
+    def shrink(self, v):
+        if (v.get('case') or {}).get('kind') == 'file-source':
+            return v
+        return super().shrink(v)
+
     def obs(self, o):
         if 'classerr' in o:
             return ('classerr', o['classerr'])
